@@ -55,6 +55,13 @@ def gen_case(rng, i):
     two = rng.random() < 0.5
     if two:
         g1 = G.group(2, [3])
+    forged_ws = []
+    if rng.random() < 0.25:
+        # an outsider (client 2) who knows g0's MLS group id: own template group with client 3, then a NEW
+        # MLS group with g0's id, inviting the recipient
+        tmpl = G.group(2, [7])
+        G.ops.append(f"forge 2 {g0} {3 if not two else 2} {tmpl}")
+        forged_ws.append(G.nw); G.nw += 1
     salts = {}                   # w -> set of salts used
     n = rng.randint(6, 22)
     if rng.random() < 0.7:
@@ -69,7 +76,7 @@ def gen_case(rng, i):
             if rng.random() < 0.5:
                 G.probe(g0)
     def some_w():
-        ws = [w for g in G.groups for w in g["ws"]]
+        ws = [w for g in G.groups for w in g["ws"]] + forged_ws
         return rng.choice(ws)
     for _ in range(n):
         x = rng.random()
@@ -146,6 +153,10 @@ def driver_line(op, res):
         if not res.startswith("ok"):
             return None
         return f"group {t[1]} {t[2]} {t[3]} {kv(res,'g')} {kv(res,'w') or '-'} {kv(res,'epoch')} {kv(res,'tok')} {kv(res,'members')}"
+    if t[0] == "forge":
+        if not res.startswith("ok"):
+            return None
+        return f"forge {t[1]} {t[2]} {t[3]} {t[4]} {kv(res,'w')} {kv(res,'epoch')} {kv(res,'tok')} {kv(res,'members')}"
     if t[0] in ("invite", "commit", "rename", "remove"):
         if not res.startswith("ok"):
             return None
@@ -188,7 +199,7 @@ def canon_impl(op, o):
         res = "app" if res == "app" else "noapp"
     if t[0] == "deliver":
         res = "commit" if res == "commit" else "nocommit"
-    if t[0] in ("group", "invite", "commit", "rename", "remove"):
+    if t[0] in ("group", "invite", "commit", "rename", "remove", "forge"):
         res = res.split()[0]
     return res, view
 
@@ -259,6 +270,7 @@ def oracle(cases):
         wmeta = {}                # w -> dict(g, epoch, tok, members)
         views = {}                # client -> last view string
         accepted_groups = {1: set(), 3: set()}
+        baseline = {}             # (client, g) -> (T, ME, MM) of a group the client should still hold Active
         ok_wrappers = {}          # (client, w, salt) -> True once processed ok
         next_w = 0
         for k, (op, out) in enumerate(zip(c["ops"], c["impl"])):
@@ -271,6 +283,8 @@ def oracle(cases):
                 for w in (kv(res, "w") or "-").split(","):
                     if w != "-" and w != "":
                         wmeta[int(w)] = {"g": g, "epoch": kv(res, "epoch"), "tok": kv(res, "tok"), "members": kv(res, "members")}
+            if t[0] == "forge" and res.startswith("ok"):
+                wmeta[int(kv(res, "w"))] = {"g": int(t[2]), "epoch": kv(res, "epoch"), "tok": kv(res, "tok"), "members": kv(res, "members"), "forged": True}
             if len(t) < 2 or not t[1].isdigit() or int(t[1]) not in (1, 3):
                 continue
             j = int(t[1])
@@ -308,17 +322,39 @@ def oracle(cases):
                 tg = wmeta.get(int(t[2]), {}).get("g")
                 st = gstate(bg[tg]) if tg in bg else "none"
                 stats["recipient_states_met"][st] = stats["recipient_states_met"].get(st, 0) + 1
-                # (4) no invitation op changes a group in which the user is Active
+                # (4) no invitation op changes a group in which the user is (and should still be) Active:
+                # `baseline[g]` = MLS token / epoch / members of a group the client legitimately holds Active,
+                # kept up to date by group traffic; an invitation op that changes the group's view while the
+                # result is not "Active with the baseline MLS state and an unchanged record" disturbs it
                 for g, part in bg.items():
-                    if gstate(part) == "a":
-                        stats["active_group_checks"] += 1
-                        if g == tg:
-                            stats["invitation_ops_on_active_group"] += 1
-                        if ag.get(g) != part:
-                            sig = {"process": "welcome-replay-pending", "accept": "welcome-replay-accept-overwrites", "decline": "welcome-replay-decline-deactivates"}[t[0]]
-                            if t[0] == "process" and not res.startswith("ok"):
-                                sig = "welcome-row-before-reject"
-                            fail(c, k, sig, f"Active group {g} of client {j} changed by `{t[0]}` ({res.split()[0]}): before `{part}` after `{ag.get(g)}`")
+                    if (j, g) not in baseline:
+                        continue
+                    stats["active_group_checks"] += 1
+                    if g == tg:
+                        stats["invitation_ops_on_active_group"] += 1
+                    after = ag.get(g)
+                    if after == part:
+                        continue
+                    mls_after = (gfield(after, "T"), gfield(after, "ME"), gfield(after, "MM")) if after else None
+                    if after and gstate(after) == "a" and mls_after == baseline[(j, g)] and gstate(part) != "a":
+                        continue            # back to the undisturbed state (e.g. accept of a newer, genuine invitation)
+                    sig = {"process": "welcome-replay-pending", "accept": "welcome-replay-accept-overwrites", "decline": "welcome-replay-decline-deactivates"}[t[0]]
+                    if t[0] == "process" and not res.startswith("ok"):
+                        sig = "welcome-row-before-reject"
+                    elif wmeta.get(int(t[2]), {}).get("forged"):
+                        sig = {"process": "welcome-foreign-creator-overwrites-record", "accept": "welcome-foreign-creator-replaces-mls", "decline": "welcome-foreign-creator-deactivates"}[t[0]]
+                    fail(c, k, sig, f"group {g}, which client {j} holds Active in MLS state {baseline[(j, g)]}, changed by `{t[0]}` ({res.split()[0]}): before `{part}` after `{after}`")
+                # a fresh, consented join establishes the baseline
+                if t[0] == "accept" and res == "ok" and tg is not None and (j, tg) not in baseline and tg in ag and gstate(ag[tg]) == "a":
+                    baseline[(j, tg)] = (gfield(ag[tg], "T"), gfield(ag[tg], "ME"), gfield(ag[tg], "MM"))
+            if t[0] in ("deliver", "probe"):
+                # group traffic moves the baseline; leaving the group (eviction) ends it
+                for g, part in ag.items():
+                    if (j, g) in baseline and bg.get(g) != part:
+                        if res == "commit" and gstate(part) == "i" and g in bg and gstate(bg[g]) == "a":
+                            del baseline[(j, g)]
+                        elif res in ("commit", "app"):
+                            baseline[(j, g)] = (gfield(part, "T"), gfield(part, "ME"), gfield(part, "MM"))
             if t[0] == "process":
                 key = (j, t[2], t[3])
                 if res.startswith("ok"):
